@@ -326,3 +326,21 @@ Definition zsort (l : list Z) : list Z := fold_right zinsert [] l.
 Definition chk_contracts (data : list instr) (und d : Z) (observed : list Z) : bool := zlist_eq (zsort (contracts data und d)) observed.
 Definition chk_find (data : list instr) (id : Z) (found : bool) : bool :=
   Bool.eqb (match find_instr data id with Some _ => true | None => false end) found.
+
+(* ---- persist / resume (C14) ---- *)
+From RQ Require Import Model.Persist.
+Fixpoint poss_eq (a b : list (pcfg * pos)) : bool :=
+  match a, b with [], [] => true | x :: s, y :: t => pos_eq 0 (snd x) (snd y) && poss_eq s t | _, _ => false end.
+Fixpoint pend_eq (a b : list (Z * Q)) : bool :=
+  match a, b with [], [] => true | (d, x) :: s, (d', y) :: t => (d =? d')%Z && approx x y && pend_eq s t | _, _ => false end.
+Definition acc_eqb (a b : account) : bool :=
+  approx (a_total_cash a) (a_total_cash b) && approx (a_frozen a) (a_frozen b) && approx (a_liab a) (a_liab b) &&
+  pend_eq (a_pending a) (a_pending b) && approx (a_mgmt_fees a) (a_mgmt_fees b) && poss_eq (a_pos a) (a_pos b).
+(* the account the stopped run held at its persistence point, pushed through persist / restore, is the account the resumed run starts from *)
+Definition chk_resume_account (stopped resumed : account) : bool :=
+  acc_eqb (restore_acc (map fst (a_pos stopped)) (persist_acc stopped)) resumed.
+Definition oz (z : Z) : option Z := if (z =? 0)%Z then None else Some z.
+Definition chk_resume_events (last_bt last_settle : Z) (days : list Z) (observed : list pev) : bool :=
+  pevs_eq (snd (xrun {| x_last_bt := oz last_bt; x_last_settle := oz last_settle |} (daily_events days) (lastz days))) observed.
+Definition chk_report_dates (earlier current observed : list Z) : bool :=
+  zlist_eq (map fst (merge_series (map (fun d => (d, 0%Q)) earlier) (map (fun d => (d, 0%Q)) current))) observed.
